@@ -357,8 +357,14 @@ impl Data {
         LinePos(self.data_len - self.payload_size.line_size() as u64)
     }
 
-    pub(crate) fn is_empty(&self) -> bool {
-        self.data_len == 0
+    /// Where the `n`th line (counting from zero, meta sections are not lines)
+    /// starts and the full timestamp of the section it is in. None if there
+    /// is no such line.
+    pub(crate) fn line_pos(&self, n: u64) -> Option<(LinePos, Timestamp)> {
+        if n >= self.len() {
+            return None;
+        }
+        self.index.line_pos(n, self.payload_size)
     }
 
     pub(crate) fn clear(&mut self) -> Result<(), std::io::Error> {
